@@ -4,11 +4,16 @@ package conf
 
 import (
 	"encoding/json"
+	"net/http/httptest"
 	"reflect"
+	"strings"
 	"testing"
 
+	"github.com/gotid/god/api/httpx"
 	"github.com/gotid/god/internal/verifdrv"
 	"github.com/gotid/god/internal/verifdrv/c05shape"
+	"github.com/gotid/god/lib/jsonx"
+	"github.com/gotid/god/lib/mapping"
 )
 
 type verifCase struct {
@@ -16,6 +21,51 @@ type verifCase struct {
 	Conf  string         `json:"conf"`  // JSON text whose field keys are re-spelled (snake_case, other initial case)
 	CYaml string         `json:"cyaml"` // the same re-spelled document as YAML text ("" = none)
 	Keys  []string       `json:"keys"`
+	Hist  [][]verifStep  `json:"hist"` // histories of calls run one after the other in this process
+}
+
+// verifStep is one call of a history: an entry point WITH options (conf-json, conf-yaml, map-canon) or an
+// option-less one (json-bytes, json-reader, json-map, yaml-bytes, yaml-reader, parse-body).
+type verifStep struct {
+	Op    string         `json:"op"`
+	Shape c05shape.Shape `json:"shape"`
+	Text  string         `json:"text"`
+}
+
+func verifStepRun(st verifStep) map[string]any {
+	var typ reflect.Type
+	if panicked, pv := verifdrv.Catch(func() { typ = st.Shape.Build() }); panicked {
+		return map[string]any{"r": "err", "msg": "shape: " + pv}
+	}
+	return c05shape.RunInto(typ, func(v any) error {
+		switch st.Op {
+		case "conf-json":
+			return LoadFromJsonBytes([]byte(st.Text), v)
+		case "conf-yaml":
+			return LoadFromYamlBytes([]byte(st.Text), v)
+		case "map-canon":
+			return mapping.UnmarshalJsonBytes([]byte(st.Text), v, mapping.WithCanonicalKeyFunc(toCamelCase))
+		case "json-bytes":
+			return mapping.UnmarshalJsonBytes([]byte(st.Text), v)
+		case "json-reader":
+			return mapping.UnmarshalJsonReader(strings.NewReader(st.Text), v)
+		case "json-map":
+			var m map[string]any
+			if err := jsonx.Unmarshal([]byte(st.Text), &m); err != nil {
+				return err
+			}
+			return mapping.UnmarshalJsonMap(m, v)
+		case "yaml-bytes":
+			return mapping.UnmarshalYamlBytes([]byte(st.Text), v)
+		case "yaml-reader":
+			return mapping.UnmarshalYamlReader(strings.NewReader(st.Text), v)
+		case "parse-body":
+			r := httptest.NewRequest("POST", "/x", strings.NewReader(st.Text))
+			r.Header.Set("Content-Type", "application/json")
+			return httpx.ParseJsonBody(r, v)
+		}
+		panic("verif: unknown op " + st.Op)
+	})
 }
 
 // TestVerifDriver loads the re-spelled document with LoadFromJsonBytes (and LoadFromYamlBytes) and tabulates toCamelCase.
@@ -31,6 +81,16 @@ func TestVerifDriver(t *testing.T) {
 			camel[i] = toCamelCase(k)
 		}
 		out["camel"] = camel
+		if len(c.Hist) > 0 {
+			hist := make([][]any, len(c.Hist))
+			for i, h := range c.Hist {
+				hist[i] = make([]any, len(h))
+				for j, st := range h {
+					hist[i][j] = verifStepRun(st)
+				}
+			}
+			out["hist"] = hist
+		}
 		if c.Conf != "" {
 			var typ reflect.Type
 			if panicked, pv := verifdrv.Catch(func() { typ = c.Shape.Build() }); panicked {
